@@ -17,7 +17,7 @@ RULE = ("histories over 2 drivers, up to 4 async sockets (TCP client with raw pe
         "create / send / step / peer send-close-reset-connect / release / destroy socket (also inside its disconnect handler, "
         "also with sends pending) / destroy driver before or after its sockets and ToDos / cancel-shift-drop of pending and "
         "finished ToDos / step of an empty driver; ops that would break a usage rule are refused by the harness and must be "
-        "illegal in the model too. State-aware random walks (length 5..40); thorough adds every history of <= 4 ops over a "
+        "illegal in the model too. State-aware random walks (length 5..40); thorough adds every history of <= 4 (second prefix: 3) ops over a "
         "17-letter alphabet after a fixed prefix. Each history runs in its own process under three builds. "
         "non-trivial = a socket or driver was destroyed with something still attached/pending, or a send hit an unregistered "
         "socket / dead driver, or a finished ToDo was cancelled/shifted.")
@@ -122,7 +122,7 @@ def gen(rng, tier):
     L = 3 if tier == "quick" else 4
     k = 0
     for pi, pre in enumerate(PREFIXES):
-        for n in range(1, L + 1):
+        for n in range(1, (L if pi == 0 else min(L, 3)) + 1):
             if tier == "quick" and n == 3:
                 # quick: a PRNG sample of the length-3 layer
                 tails = [tuple(rng.choice(ALPHABET) for _ in range(3)) for _ in range(150)]
